@@ -1,4 +1,4 @@
-"""C15 failing-input search: the symbolic operator algebra (renormalizer/model/op.py) is a faithful
+r"""C15 failing-input search: the symbolic operator algebra (renormalizer/model/op.py) is a faithful
 homomorphism into matrices.
 
 Method.  A case is a small random *universe* (1-3 sites: half spins, harmonic oscillators, simple
@@ -23,10 +23,15 @@ operands must still denote their own shadows (no hidden mutation).  Further orac
 Tolerance: 1e-12 * bound, bound = the same expression evaluated on |factor| * prod ||M|| (>= every
 intermediate), i.e. ~ 64 eps * (#flops of a tiny program) * scale.
 
-Stable signatures on the pinned tree:
- * "squeeze_identity:qn2-identity-factor:raises"  (DESIGN §7 D4)
+Stable signatures:
+ * "squeeze_identity:qn2-identity-factor:raises"  (DESIGN §7 D4; fired on the pinned tree, silent since the
+   `fix:` commit f24f8df "Op.squeeze_identity accepts multi-component zero quantum numbers")
  * "opsum-mul:0d-int-ndarray-negative:list-repetition"  (OpSum * np.array(-k) falls through to
-   list repetition and silently returns the empty sum; see final report of the builder)
+   list repetition and silently returns the empty sum; still fires.  Set INCLUDE_0D_ARRAY = False to take
+   0-d arrays out of the scalar domain.)
+Observation (not a violation, excluded by the generator): the bare spin alias "+" between "b^\dagger" and a
+symbol starting with "b" makes Op.product build the string "b^\dagger + b...", which Op.__init__ reads as the
+single symbol "b^\dagger + b" and rejects with ValueError.
 """
 import logging
 
